@@ -60,7 +60,7 @@ Qed.
 
 (* ---------- the reverse walk takes consecutive slices ---------- *)
 Definition arity (e : melem) : nat :=
-  if exported (sfo_name (me_in e)) then length (me_out e) else 0.
+  if xexported (sfo_name (me_in e)) then length (me_out e) else 0.
 
 Section RevLayer.
 Variable E : env.
@@ -70,7 +70,7 @@ Variable subrev : mangler -> xstate -> tval -> outcome tval.
 Fixpoint rev_groups (m : mangler) (elems : list melem) (gs : list (list fvt)) : outcome (list fvt) :=
   match elems, gs with
   | e :: r, g :: gr =>
-      if negb (exported (sfo_name (me_in e))) then
+      if negb (xexported (sfo_name (me_in e))) then
         rest <- rev_groups m r gr ;; Ok ((zero_sf, (TIface, VNil)) :: rest)
       else
         nv <- unmangle_field E subrev m e g ;;
@@ -84,7 +84,7 @@ Lemma rev_layer_slices m elems lv off :
   rev_layer E subrev m elems lv off = rev_groups m elems (slices (map arity elems) lv off).
 Proof.
   revert off; induction elems as [|e r IH]; intros off H; simpl in *; [reflexivity|].
-  destruct (exported (sfo_name (me_in e))) eqn:Ex; simpl.
+  destruct (xexported (sfo_name (me_in e))) eqn:Ex; simpl.
   - assert (Ha : arity e = length (me_out e)) by (unfold arity; now rewrite Ex).
     rewrite Ha in *.
     destruct (Nat.ltb (length lv) (off + length (me_out e))) eqn:L.
@@ -132,7 +132,7 @@ Lemma xlate_layer_records m lf lf' st : xlate_layer sub m lf = Ok (lf', st) ->
 Proof.
   revert lf' st; induction lf as [|f r IH]; intros lf' st H; simpl in H.
   - inversion H; subst. simpl. auto.
-  - destruct (exported (sf_name f)) eqn:Ex; simpl in H.
+  - destruct (xexported (sf_name f)) eqn:Ex; simpl in H.
     + destruct (mangle m f) as [outs| |]; simpl in H; try discriminate.
       destruct (recurse_outs sub m outs) as [rec| |] eqn:Hr; simpl in H; try discriminate.
       destruct (xlate_layer sub m r) as [[o s]| |] eqn:Hx; simpl in H; try discriminate.
